@@ -264,7 +264,7 @@ def _observe(data: bytes, count_reads=False, listener_args=False, steps=False):
         CountingBytes.code = dec_code
         CountingBytes.reads = 0
         data = CountingBytes(data)
-    status, exc, obj = "ok", None, None
+    status, exc, obj, second = "ok", None, None, None
     old_limit = sys.getrecursionlimit()
     # frames below the first activation: this function, __init__/answers, _initial_parse/_read_others, [_read_questions/_read_record], _read_name
     depth_here = len(_stack())
@@ -275,7 +275,9 @@ def _observe(data: bytes, count_reads=False, listener_args=False, steps=False):
     try:
         try:
             m = inc.DNSIncoming(data, *LISTENER_ARGS) if listener_args else inc.DNSIncoming(data)
-        except Exception as e:  # noqa: BLE001 - the property is about *any* exception
+        except (WorkBudgetExceeded, KeyboardInterrupt):
+            raise
+        except BaseException as e:  # noqa: BLE001 - the property is about *any* exception (SystemExit and the like included)
             sys.setprofile(None)
             sys.settrace(None)
             status, exc = "init-raised", exc_name(e)
@@ -283,7 +285,9 @@ def _observe(data: bytes, count_reads=False, listener_args=False, steps=False):
         if m is not None:
             try:
                 ans = m.answers()
-            except Exception as e:  # noqa: BLE001
+            except (WorkBudgetExceeded, KeyboardInterrupt):
+                raise
+            except BaseException as e:  # noqa: BLE001
                 sys.setprofile(None)
                 sys.settrace(None)
                 status, exc = "answers-raised", exc_name(e)
@@ -291,6 +295,17 @@ def _observe(data: bytes, count_reads=False, listener_args=False, steps=False):
             sys.setprofile(None)
             sys.settrace(None)
             obj = obj_view(m, ans)
+            if status == "ok":
+                # production reads answers() several times per message (record manager, query handler, repr): the second reading
+                # must not raise and must show the same object (review escape 8)
+                try:
+                    obj2 = obj_view(m, m.answers())
+                    if obj2 != obj:
+                        second = ("differs", _short(obj2))
+                except (WorkBudgetExceeded, KeyboardInterrupt):
+                    raise
+                except BaseException as e:  # noqa: BLE001
+                    second = ("raised", exc_name(e))
     finally:
         sys.setprofile(None)
         sys.settrace(None)
@@ -300,6 +315,8 @@ def _observe(data: bytes, count_reads=False, listener_args=False, steps=False):
     if len(inc._seen_logs) > 2000:
         inc._seen_logs.clear()
     out = {"status": status, "exc": exc, "names": cnt[0], "acts": cnt[1], "depth": cnt[3], "obj": obj}
+    if second is not None:
+        out["second"] = second
     if count_reads:
         out["reads"] = CountingBytes.reads
     if steps:
@@ -1152,6 +1169,29 @@ UTF8_ALPHABET = [0x00, 0x41, 0x7F, 0x80, 0x8F, 0x90, 0x9F, 0xA0, 0xBF, 0xC0, 0xC
 # ------------------------------------------------------------------------------------------
 
 
+def disagree_facet(obs, ref):
+    """which part of the object differs from the strict parser's message: the signature of a faithfulness violation names it, so that
+    recording one class as a known finding could not hide another (second review, section 1)"""
+    obj = obs["obj"]
+    if obs["status"] != "ok" or obj is None:
+        return "raised"
+    if not obj["valid"]:
+        return "marked-invalid"
+    if obj["hdr"] != ref["hdr"]:
+        return "header"
+    if obj["questions"] != ref["questions"]:
+        return "questions"
+    a, b = obj["records"], ref["records"]
+    for x, y in zip(a, b):
+        if x != y:
+            if x[0] != y[0]:
+                return "record-owner:type-%d" % y[1]
+            if x[1:4] != y[1:4]:
+                return "record-fixed-fields:type-%d" % y[1]
+            return "record-rdata:type-%d" % y[1]
+    return "records-%s" % ("missing" if len(a) < len(b) else "extra")
+
+
 def sig_of(obs):
     if obs["status"] != "ok":
         return "C02:escape:%s" % obs["exc"]
@@ -1172,6 +1212,14 @@ def check_case(res, data, stream, obs, mline, sline, bline, model_ok=True, wline
         res.violate("C02:escape:%s" % obs["exc"], "%s escapes %s for a %d-byte datagram (recursion depth %d)"
                     % (obs["exc"], "DNSIncoming(data)" if obs["status"] == "init-raised" else "answers()", len(data), obs["depth"]), case)
     obj = obs["obj"]
+    if obs.get("second") is not None:
+        kind, what = obs["second"]
+        if kind == "raised":
+            res.violate("C02:escape:%s" % what, "%s escapes the second answers() call on the same object for a %d-byte datagram" % (what, len(data)), case)
+        else:
+            # no sentence of the property fixes what a second reading shows for an invalid message: a broken correspondence (the model's
+            # answers() is idempotent: `_did_read_others` is set before anything can fail)
+            res.disagree("second-answers-call", case, what, "the same object as the first call: " + _short(obj))
     if obj is not None and obj["valid"]:
         for nm in [q[0] for q in obj["questions"]] + [r[0] for r in obj["records"]] + [r[4][-1] if r[4][0] in ("p", "s") else r[4][1] for r in obj["records"] if r[4][0] in ("p", "s", "n")]:
             if len(nm) > 253:
@@ -1215,8 +1263,8 @@ def check_case(res, data, stream, obs, mline, sline, bline, model_ok=True, wline
                 ok = (obs["status"] == "ok" and obj["valid"] and obj["hdr"] == strict["hdr"] and obj["questions"] == strict["questions"]
                       and obj["records"] == strict["records"])
                 if not ok:
-                    res.violate("C02:strict-disagrees", "the strict RFC 1035 parser accepts this datagram but the library's result differs (valid=%s)"
-                                % (obj["valid"] if obj else None), dict(case, strict=sline[:400]))
+                    res.violate("C02:strict-disagrees:" + disagree_facet(obs, strict), "the strict RFC 1035 parser accepts this datagram but the library's result "
+                                "differs (valid=%s)" % (obj["valid"] if obj else None), dict(case, strict=sline[:400]))
                 else:
                     nr, nqs = len(obj["records"]), len(obj["questions"])
                     res.nontriv(("agree", min(nqs, 64) // 8, min(nr, 64) // 8, tuple(sorted({r[4][0] for r in obj["records"]})), min(obs["depth"], 130) // 8))
@@ -1309,8 +1357,8 @@ def third_parser(res, data, case, obs, strict, have_lean):
             if nl > res.streams.get("max-agreeing-labels", 0):
                 res.streams["max-agreeing-labels"] = nl
         if not ok and not (strict is not None and strict["supported"] and strict["reencodable"]):  # else already reported above
-            res.violate("C02:strict-disagrees", "an independent strict RFC 1035 parser (253-character names) accepts this datagram but the library's result "
-                        "differs (valid=%s)" % (obj["valid"] if obj else None), case)
+            res.violate("C02:strict-disagrees:" + disagree_facet(obs, p253), "an independent strict RFC 1035 parser (253-character names) accepts this datagram "
+                        "but the library's result differs (valid=%s)" % (obj["valid"] if obj else None), case)
     elif p253 is not None and _reenc_ok(p253["names"]):
         # the supported part of a message that also carries unsupported records, judged without Lean
         res.count("rfc1035.py-accepted-mixed")
@@ -1528,6 +1576,31 @@ def seen_logs_stream(res, tier):
                         if unbounded else "bounded"))
     if memo is not None:
         memo.clear()
+
+
+def pxd_pin(res):
+    """The shipped wheels are the Cython build of incoming.py, typed by incoming.pxd; what runs here is the pure-Python module (TRUSTED).
+    A static pin on the one thing a .pxd edit can silently change -- the width of the C integers that hold offsets, lengths, counts and
+    links (review escape 6): every integer type in the file must be `unsigned int` / `cython.uint`; the only narrower type allowed is the
+    byte view `const unsigned char [:] view`.  Anything else is a broken tie (stage C), not a verdict about behaviour."""
+    import re
+
+    path = C.REPO / "src" / "zeroconf" / "_protocol" / "incoming.pxd"
+    res.evaluations += 1
+    if not path.exists():
+        res.count("pxd:absent")
+        return
+    bad = []
+    for no, line in enumerate(path.read_text().splitlines(), 1):
+        code = line.split("#")[0]
+        if re.search(r"const\s+unsigned\s+char\s*\[:\]\s*view", code):
+            continue
+        if re.search(r"\b(char|short|uchar|ushort|schar|sshort|int8_t|uint8_t|int16_t|uint16_t)\b", code):
+            bad.append((no, line.strip()))
+    res.count("pxd:integer-declarations-checked")
+    for no, line in bad:
+        res.disagree("pxd-types", {"file": "src/zeroconf/_protocol/incoming.pxd", "line": no}, line,
+                     "every C integer that holds an offset, length, count or pointer target is `unsigned int` (>= 16 383 + 65 535 must fit)")
 
 
 def guard_stream(res, driver_ok):
@@ -1755,6 +1828,7 @@ def run(ctx):
     # the text layer: names the decoder returns (text, len(name)) and what write_name makes of them, against Zc.NameText
     textlayer.reencode_stream(res, rng, tier, driver_ok, rlabel)
     guard_stream(res, driver_ok)
+    pxd_pin(res)
     res.notes.append("largest message on which the library agreed with the strict parser: %d records, %d questions; deepest agreeing pointer chain: nesting %d "
                      "(= %d hops; the strict parser allows 128); longest agreeing name in a message with compressed names: %d labels"
                      % (res.streams.get("max-agreeing-records", 0), res.streams.get("max-agreeing-questions", 0), res.streams.get("max-agreeing-nesting", 0),
